@@ -74,6 +74,9 @@ def special_scenarios(rng):
     # ... and the single-fault create paths in that environment
     out.append(("fd0-free-faults", "m closefd0\n" + "".join("m fault %s %d 24\nm pool 2 0\nm reset\n" % (kind, k)
                 for kind in ("pipe2", "epoll_create1", "epoll_ctl") for k in (1, 2, 3)) + "m openfd0\n"))
+    # the documented default "threads_max = 0": one worker per CPU. The count the scenario expects comes from the driver's own
+    # sysconf(), the specification demands that the pool reports it and that create/destroy balance for that many threads
+    out.append(("auto-thread-count", "m watchdog 20\nm pool 0 0\nm start 0\nm waitrun\nm send 1 0 77\nm bsend 512 78\nm quiesce\nm shutdown\nm sleep 20000\nm shutdown_wait\nm destroy\nm watchdog 30\nm reset\n"))
     return out
 
 def fault_scenarios(nthr):
